@@ -116,11 +116,23 @@ func cmdWorker(args []string) int {
 	stats := newStats()
 	startTicks := simrt.Now()
 	done := uint64(0)
+	flushed := uint64(0)
+	// counters go to the parent as deltas every 64 runs, so that little is lost if this process
+	// is killed by a run that aborts it
+	flushStats := func() {
+		stats.add("ticks", simrt.Now()-startTicks)
+		startTicks = simrt.Now()
+		stats.add("runs", done-flushed)
+		flushed = done
+		b, _ := json.Marshal(stats)
+		fmt.Fprintf(out, "S %s\n", b)
+		stats.Counters = map[string]uint64{}
+	}
 	for i := *from; i < *count; i++ {
 		if i%*n != *w {
 			continue
 		}
-		if *deadline != 0 && done%64 == 0 && time.Now().Unix() > *deadline {
+		if *deadline != 0 && time.Now().Unix() > *deadline {
 			fmt.Fprintf(out, "D %d\n", i)
 			break
 		}
@@ -146,11 +158,12 @@ func cmdWorker(args []string) int {
 			nt = 1
 		}
 		fmt.Fprintf(out, "E %d %016x %d\n", i, res.FP, nt)
+		if done%64 == 0 {
+			flushStats()
+		}
 	}
-	stats.add("ticks", simrt.Now()-startTicks)
-	stats.add("runs", done)
-	b, _ := json.Marshal(stats)
-	fmt.Fprintf(out, "S %s\n", b)
+	flushStats()
+	fmt.Fprintf(out, "F\n")
 	out.Flush()
 	return exitOK
 }
@@ -205,7 +218,7 @@ func cmdExec(args []string) int {
 	kn := loadKnown(*known, *prop)
 	// the BEGIN marker lets the parent tell "died inside the run" from "died before it"
 	fmt.Println("B 0")
-	res := executeRun(sc, *tier, tape, newStats(), true, kn, uint64(max(*idx, 0)))
+	res := executeRun(sc, *tier, tape, newStats(), true, kn, uint64(max(*idx, 0)), true)
 	if res.Infra != "" {
 		fmt.Fprintln(os.Stderr, "INFRA:", res.Infra)
 		return exitInfra
